@@ -255,6 +255,10 @@ def run(ctx):
         if lib_err:
             continue
         known = mergelib.known_ids(*[v for v in files.values() if isinstance(v, dict)])
+        # nbformat.read repairs duplicate cell ids when the output is read back: ids that occur twice in the
+        # library result (both variants of a conflicting cell are kept) are not compared
+        ids = [c.get('id') for c in (lib_merged or {}).get('cells', []) if isinstance(c.get('id'), str)]
+        known = known - {i for i in ids if ids.count(i) > 1}
         # reading fewer than 3 real files: a fault at read k may not fire (placeholders are still "read")
         if site is None:
             want_rc = 1 if lib_conflict else 0
